@@ -6,8 +6,11 @@ From Http Require Import Model.Bytes Model.Utf8 Model.Num Model.Headers Model.Re
 (* ---- strip_cr ---- *)
 Lemma strip_cr_snoc x y : strip_cr (x ++ [y]) = if N.eqb y CR then x else x ++ [y].
 Proof.
-  unfold strip_cr. rewrite rev_app_distr. simpl.
-  destruct (N.eqb y CR); [apply rev_involutive|reflexivity].
+  induction x as [|a x IH]; [reflexivity|].
+  change ((a :: x) ++ [y]) with (a :: (x ++ [y])).
+  assert (E : strip_cr (a :: (x ++ [y])) = a :: strip_cr (x ++ [y])).
+  { destruct x; reflexivity. }
+  rewrite E, IH. destruct (N.eqb y CR); reflexivity.
 Qed.
 
 Lemma strip_cr_nil : strip_cr [] = [].
